@@ -27,7 +27,7 @@ func (e *engine) Info() core.Info {
 	return core.Info{
 		Prop:  "C19",
 		Level: "exploration",
-		Rule:  "a case is one seeded history: <=40 AddLink calls on a small lattice (end points identical, 1-ulp perturbed (must merge) or >=1 apart; random interior vertices; speeds from a small set or continuous in [0.1,100]; no self-loops or parallel links) interleaved with ShortestRoute queries (query points offset <=0.3 from a network node so that the nearest node is unique), both MinimizeOptions, neighbour order chosen by the tape; non-trivial = at least one answered query between distinct connected nodes for which the fewest-links route is NOT a minimum-cost route (so uniform-cost search would be wrong); distinct = distinct hash of the full operation/result log",
+		Rule:  "a case is one seeded history: <=40 AddLink calls on a small lattice (one run in ten: up to 160 links over up to 81 nodes, so that the node R-tree is multi-level) (end points identical, 1-ulp perturbed (must merge) or >=1 apart; random interior vertices; speeds from a small set or continuous in [0.1,100]; no self-loops or parallel links) interleaved with ShortestRoute queries (query points offset <=0.3 from a network node so that the nearest node is unique), both MinimizeOptions, neighbour order chosen by the tape; non-trivial = at least one answered query between distinct connected nodes for which the fewest-links route is NOT a minimum-cost route (so uniform-cost search would be wrong); distinct = distinct hash of the full operation/result log",
 		Real:  []string{"route (NewNetwork, AddLink, newNode/addNode, ShortestRoute, graph adapter, heuristic)", "index/rtree NearestNeighbor/Insert underneath", "op.PointEquals/Length/Distance", "gonum graph/path.AStar"},
 		Stubs: []string{"Go map iteration order in Network.From/Nodes (replaced by a tape-chosen permutation of the id-sorted slice through the verif hook)"},
 		FaultKinds: []string{
@@ -40,7 +40,7 @@ func (e *engine) Info() core.Info {
 			"networks as the property states: no self-loops, no parallel links, positive finite speeds; coordinates in [1,9] so that the relative merge tolerance is unambiguous",
 			"the Dijkstra model and polyline-length computation of the oracle are correct; costs compared with 1e-9 relative tolerance; any minimum-cost chain is accepted",
 		},
-		QuickRuns: 400000, ThoroughRuns: 20000000, QuickWallS: 60, ThoroughWallS: 1200,
+		QuickRuns: 250000, ThoroughRuns: 8000000, QuickWallS: 60, ThoroughWallS: 1200,
 	}
 }
 
@@ -129,6 +129,13 @@ func (r *run) exec() {
 		r.opt = route.Distance
 	}
 	r.g = 2 + t.Choose(4, "cfg-grid")
+	big := t.OneIn(10, "cfg-big")
+	if big {
+		// more than 50 nodes: the node index (an R-tree with fan-out 25..50)
+		// becomes multi-level, so end-point merging and query snapping go
+		// through its split and nearest-neighbour paths
+		r.g = 8 + t.Choose(2, "cfg-grid-big")
+	}
 	r.permute = t.Choose(3, "cfg-permute") != 0
 	speedMode := t.Choose(3, "cfg-speeds") // 0 all equal, 1 small set, 2 continuous
 	r.log.Eventf("config minimize=%v grid=%d permute=%v speedMode=%d", r.opt, r.g, r.permute, speedMode)
@@ -137,8 +144,11 @@ func (r *run) exec() {
 		return
 	}
 	ops := 0
-	maxLinks := 40
-	for r.res.Viol == nil && ops < 90 {
+	maxLinks, maxOps := 40, 90
+	if big {
+		maxLinks, maxOps = 160, 260
+	}
+	for r.res.Viol == nil && ops < maxOps {
 		ops++
 		doQuery := len(r.links) > 0 && t.Choose(3, "op") == 0
 		if !doQuery && len(r.links) >= maxLinks {
@@ -149,7 +159,11 @@ func (r *run) exec() {
 		} else {
 			r.addLink(speedMode)
 		}
-		if !t.More(30, "more-ops") {
+		mean := 30
+		if big {
+			mean = 200
+		}
+		if !t.More(mean, "more-ops") {
 			break
 		}
 	}
@@ -361,6 +375,9 @@ func (r *run) query() {
 	opt := r.dijkstra(s, r.cost)
 	best, reachable := opt[e]
 	r.log.EventInts("route-result", int64(len(rt)), int64(math.Float64bits(dist)), int64(math.Float64bits(tm)))
+	if len(r.nodes) > 50 {
+		r.res.Probe("query-on-network-with->50-nodes(multi-level-node-index)")
+	}
 	if !reachable {
 		r.res.Probe("query-disconnected")
 		if len(rt) != 0 || dist != 0 || tm != 0 {
